@@ -273,6 +273,9 @@ func runC08(c *ctx, cfgNames []string) []procOut {
 	}
 	wg.Wait()
 	var outs []procOut
+	if os.Getenv("VERIF_C08_OPS") == "" || os.Getenv("VERIF_C08_COV") != "" {
+		outs = append(outs, runC08Cov(c)...)
+	}
 	for _, cn := range cfgNames {
 		r := results[cn]
 		r.Observed["secrets_per_operation"] = nsecrets
@@ -282,5 +285,61 @@ func runC08(c *ctx, cfgNames []string) []procOut {
 		}
 		outs = append(outs, procOut{cfg: cn, res: r})
 	}
+	return outs
+}
+
+// runC08Cov builds the block-counter driver with coverage instrumentation of the library packages and runs
+// it in all four configurations.
+func runC08Cov(c *ctx) []procOut {
+	const lib = "github.com/oasisprotocol/curve25519-voi/"
+	coverpkg := lib + "curve/...," + lib + "internal/...," + lib + "primitives/...," + lib + "zzverif/drv/c08cov"
+	var wg sync.WaitGroup
+	var mu sync.Mutex
+	var outs []procOut
+	buildErr := map[string]string{}
+	for _, bn := range []string{"default", "purego", "force32bit"} {
+		wg.Add(1)
+		go func(bn string) {
+			defer wg.Done()
+			b := builds[bn]
+			tags := append([]string{}, b.Tags...)
+			if c.useGraft {
+				tags = append(tags, "verif")
+			}
+			args := []string{"build", "-trimpath", "-cover", "-covermode=atomic", "-coverpkg=" + coverpkg}
+			if len(tags) > 0 {
+				args = append(args, "-tags", strings.Join(tags, ","))
+			}
+			args = append(args, "-o", c.binPath("cov."+bn), "./drv/c08cov")
+			if out, err := run(filepath.Join(c.scratch, "h"), goEnv(), "go", args...); err != nil {
+				mu.Lock()
+				buildErr[bn] = firstLines(out, 10)
+				mu.Unlock()
+			}
+		}(bn)
+	}
+	wg.Wait()
+	for _, cn := range all4 {
+		cfg := configs[cn]
+		if e, bad := buildErr[cfg.Build]; bad {
+			outs = append(outs, procOut{cfg: cn + "+blocks", exitCode: 2, stderr: "HARNESS-ERROR cover build failed: " + e})
+			continue
+		}
+		wg.Add(1)
+		go func(cn string, cfg configSpec) {
+			defer wg.Done()
+			covdir := filepath.Join(c.scratch, "out", "covdir-"+cn)
+			os.MkdirAll(covdir, 0o755)
+			cc := cfg
+			cc.Build = "cov." + cfg.Build
+			po := c.runConfig(cc, 1, nil, []string{"GOCOVERDIR=" + covdir}, "+blocks")
+			os.RemoveAll(covdir)
+			mu.Lock()
+			outs = append(outs, po)
+			mu.Unlock()
+		}(cn, cfg)
+	}
+	wg.Wait()
+	sort.Slice(outs, func(i, j int) bool { return outs[i].cfg < outs[j].cfg })
 	return outs
 }
